@@ -358,6 +358,22 @@ def shrink(case, fails):
                     break
             except Exception:
                 pass
+        if changed:
+            continue
+        used = {i for i, _, _ in case["edges"]} | {j for _, j, _ in case["edges"]}
+        for v in range(len(case["nodes"])):
+            if v in used:
+                continue
+            c2 = json.loads(json.dumps(case))
+            c2["nodes"] = [tuple(x) for x in c2["nodes"]]
+            del c2["nodes"][v]
+            c2["edges"] = [(i - (i > v), j - (j > v), p) for i, j, p in c2["edges"]]
+            try:
+                if fails(c2):
+                    case, changed = c2, True
+                    break
+            except Exception:
+                pass
     return case
 
 
